@@ -104,6 +104,8 @@ type c07Table struct {
 	// preHeader > 0: a narrower header of that many columns is added first and the skipable settings are made
 	// THEN (before the table grows to its final width), instead of at the end
 	preHeader int
+	// literal[i]: row i (which has no cells) is added as the zero value &tabular.Row{} (nil cell slice, not a separator)
+	literal map[int]bool
 }
 
 type hiddenStringer struct{ s string }
@@ -224,9 +226,13 @@ func c07Run(x *X, c *Chooser, t *c07Table, tags []string) {
 	if t.hasHeader {
 		jt.AddHeaders(strItems(t.header)...)
 	}
-	for _, r := range t.rows {
+	for ri, r := range t.rows {
 		if r == nil {
 			jt.AddSeparator()
+			continue
+		}
+		if t.literal[ri] {
+			jt.AddRow(&tabular.Row{})
 			continue
 		}
 		items := make([]interface{}, len(r))
@@ -325,18 +331,27 @@ func mapKeys(m map[string]interface{}) []string {
 func runC07(x *X) {
 	// (a) row-kind words
 	maxw := x.Pick(7, 8)
-	x.Explore("row-words", ExploreOpts{ShardDepth: 2, Bound: fmt.Sprintf("all words over {O,S,Z,P} of length <=%d", maxw)}, func(c *Chooser) {
+	x.Explore("row-words", ExploreOpts{ShardDepth: 2, Bound: fmt.Sprintf("all words over {O object row, S separator, Z zero-cell row, P short row, L the zero value &Row{}} of length <=%d", maxw)}, func(c *Chooser) {
 		t := &c07Table{hasHeader: true, header: []string{"k1", "k2"}, skip: map[int]interface{}{}}
 		var w strings.Builder
 		nontrivial := false
 		var tags []string
 		for i := 0; i < maxw; i++ {
-			k := c.Choose(5)
+			k := c.Choose(6)
 			if k == 0 {
 				break
 			}
 			x.Transition(1)
 			switch k {
+			case 5:
+				// the zero value of the exported Row type: no cells (a nil slice), yet not a separator
+				w.WriteByte('L')
+				if t.literal == nil {
+					t.literal = map[int]bool{}
+				}
+				t.literal[len(t.rows)] = true
+				t.rows = append(t.rows, []c07Cell{})
+				nontrivial = true
 			case 1:
 				w.WriteByte('O')
 				t.rows = append(t.rows, []c07Cell{{fmt.Sprintf("v%d", i), "str"}, {i, "int"}})
